@@ -14,7 +14,8 @@
 (*   "MemoScore"    Score() memoised in a package-level cache              *)
 (*   "SharedNames"  one names set shared by all objects of a constructor   *)
 (*   "SharedScratch" Encode() formatting into a package-level buffer       *)
-(*   "TemplateCache" export keeping the last parsed template in a          *)
+(*   "TemplateCache" export keeping the last parsed template -- or the     *)
+(*                  nested definitions of all parsed templates -- in a     *)
 (*                  package-level variable (check-then-use)                *)
 (*   "PoolDoublePut" Encode() buffers recycled through a pool into which   *)
 (*                  the error path puts its buffer twice                   *)
